@@ -124,7 +124,9 @@ where
         // This message contains updated clock synchronization information from chrony Tracking
         // data. Extract and convert info, and keep track of this latest update.
         let (mut bound_nsec, clock_status) = extract_bound_from_tracking(tracking);
-        bound_nsec += phc_error_bound;
+        // The PHC error bound is whatever the device attribute holds: a sum that does not fit the
+        // record's field saturates instead of wrapping into a negative bound.
+        bound_nsec = bound_nsec.saturating_add(phc_error_bound);
         self.shm_clock_state = self.shm_clock_state.apply_chrony(clock_status);
 
         // Only update the clock error bound value if chrony is synchronized. This helps ensure
